@@ -1460,6 +1460,8 @@ func runCodecSym(c *Ctx) {
 	// 5. primitives: a fresh body cell per element, lengths only from Uvarint
 	bodyFreshCheck(c, dec)
 	lengthPrimCheck(c, dec)
+	// 6. every decoded entry and link is transferred to the node
+	copyLoopCheck(c, dec)
 }
 
 // linkEmptyAssume assumes node.Link is empty (or non-empty).
@@ -2294,5 +2296,257 @@ func runEmptyBody(c *Ctx) {
 	}
 	if n == 0 {
 		c.Undecided(encFn, c.P.Pos(encFn.Pos()), "element encoder", "no list of marshalled elements found in the binary encoder")
+	}
+}
+
+// ---------------------------------------------------------------------------
+// COPYLOOP (part of CODECSYM)
+
+// loopBoundOf finds, for an element store at index idx in block b, the
+// innermost enclosing loop whose test is `idx < bound` / `idx <= bound` with
+// idx running from 0 in steps of 1.
+func loopBoundOf(b *ssa.BasicBlock, idx ssa.Value) (bound ssa.Value, op token.Token, ok bool) {
+	// a bottom-tested (rotated) loop, as go/ssa builds for `for i := range n`:
+	// idx = phi(0, idx+1) in the header, the latch tests idx+1 < bound
+	if phi, isPhi := idx.(*ssa.Phi); isPhi {
+		h := phi.Block()
+		var inc ssa.Value
+		okPhi := len(phi.Edges) >= 2
+		for i, e := range phi.Edges {
+			if h.Dominates(h.Preds[i]) {
+				bin, isBin := e.(*ssa.BinOp)
+				if !isBin || bin.Op != token.ADD || bin.X != ssa.Value(phi) || !fxIsIntConst(bin.Y, 1) || (inc != nil && inc != e) {
+					okPhi = false
+				}
+				inc = e
+			} else if !fxIsIntConst(e, 0) {
+				okPhi = false
+			}
+		}
+		if okPhi && inc != nil && (h == b || h.Dominates(b)) {
+			var bnd ssa.Value
+			var bop token.Token
+			all := true
+			for i, p := range h.Preds {
+				if !h.Dominates(p) {
+					continue
+				}
+				_ = i
+				iff, isIf := p.Instrs[len(p.Instrs)-1].(*ssa.If)
+				if !isIf {
+					all = false
+					break
+				}
+				cond, isBin := iff.Cond.(*ssa.BinOp)
+				if !isBin || (cond.Op != token.LSS && cond.Op != token.LEQ) || cond.X != inc || p.Succs[0] != h || (bnd != nil && bnd != cond.Y) {
+					all = false
+					break
+				}
+				bnd, bop = cond.Y, cond.Op
+			}
+			if all && bnd != nil {
+				return bnd, bop, true
+			}
+		}
+	}
+	for h := innermostLoopHeader(b); h != nil; {
+		if len(h.Instrs) > 0 {
+			if iff, isIf := h.Instrs[len(h.Instrs)-1].(*ssa.If); isIf {
+				if cond, isBin := iff.Cond.(*ssa.BinOp); isBin && (cond.Op == token.LSS || cond.Op == token.LEQ) && cond.X == idx && isFullRangeIndex(cond.X, h) {
+					return cond.Y, cond.Op, true
+				}
+			}
+		}
+		// an outer loop
+		if h.Idom() == nil {
+			break
+		}
+		h = innermostLoopHeader(h.Idom())
+	}
+	return nil, 0, false
+}
+
+// copyLoopCheck: (a) in the two-stage JSON decoder (and the helpers it hands
+// the node or the decoded lists to, depth ≤ 2) every store into node.Key[i],
+// node.Value[i], node.Link[i] sits in a loop that ranges over the decoded list
+// it copies from (or over the destination itself): a link copied in a loop
+// over the keys loses link n. (b) in the binary list decoders the element
+// store ranges over exactly the decoded count the output list was made with.
+func copyLoopCheck(c *Ctx, dec *ssa.Function) {
+	st, sfn, _ := stringNodeStruct(c)
+	if sfn != nil {
+		var node *ssa.Parameter
+		for _, p := range sfn.Params {
+			if ir.IsPtrToNamed(p.Type(), "mastNode") {
+				node = p
+			}
+		}
+		isSrcBase := func(v ssa.Value) bool {
+			a, ok := v.(*ssa.Alloc)
+			if !ok {
+				return false
+			}
+			pt, ok := a.Type().Underlying().(*types.Pointer)
+			return ok && types.Identical(types.Unalias(pt.Elem()).Underlying(), st)
+		}
+		// classify a list expression: ("src"|"dst", field)
+		classify := func(v ssa.Value, env *fxEnv) (string, string) {
+			v, env = env.resolve(v)
+			base, path, ok := fxFieldLoad(v)
+			if !ok || base == nil {
+				return "", ""
+			}
+			base, _ = env.resolve(base)
+			switch {
+			case node != nil && base == ssa.Value(node):
+				return "dst", path
+			case isSrcBase(base):
+				return "src", path
+			}
+			return "", ""
+		}
+		type scope struct {
+			fn  *ssa.Function
+			env *fxEnv
+		}
+		scopes := []scope{{sfn, nil}}
+		seen := map[*ssa.Function]bool{sfn: true}
+		for i := 0; i < len(scopes) && i < 8; i++ {
+			sc := scopes[i]
+			depth := 0
+			for e := sc.env; e != nil; e = e.up {
+				depth++
+			}
+			if depth >= 2 {
+				continue
+			}
+			for _, cl := range staticCallsIn(sc.fn) {
+				callee := ir.Callee(cl.Call)
+				if callee == nil || !fxOwnFunc(callee) || seen[callee] {
+					continue
+				}
+				relevant := false
+				sub := &fxEnv{bind: map[*ssa.Parameter]ssa.Value{}, up: sc.env}
+				for j, a := range cl.Call.Args {
+					if j >= len(callee.Params) {
+						break
+					}
+					sub.bind[callee.Params[j]] = a
+					ra, re := sc.env.resolve(a)
+					if node != nil && ra == ssa.Value(node) {
+						relevant = true
+					}
+					if k, _ := classify(ra, re); k != "" {
+						relevant = true
+					}
+				}
+				if relevant {
+					seen[callee] = true
+					scopes = append(scopes, scope{callee, sub})
+				}
+			}
+		}
+		nStores := 0
+		for _, sc := range scopes {
+			for _, b := range sc.fn.Blocks {
+				for _, ins := range b.Instrs {
+					store, ok := ins.(*ssa.Store)
+					if !ok {
+						continue
+					}
+					ia, ok := store.Addr.(*ssa.IndexAddr)
+					if !ok {
+						continue
+					}
+					kind, field := classify(ia.X, sc.env)
+					if kind != "dst" || (field != "Key" && field != "Value" && field != "Link") {
+						continue
+					}
+					nStores++
+					construct := "copy loop of node." + field
+					pos := c.P.InstrPos(store)
+					bound, op, ok := loopBoundOf(b, ia.Index)
+					if !ok {
+						c.Undecided(sc.fn, pos, construct, "node."+field+"[i] is assigned outside a loop `for i := 0; i < n; i++` / range the rule recognises")
+						continue
+					}
+					// what the loop ranges over
+					plus1 := false
+					bv, benv := sc.env.resolve(bound)
+					if bin, isBin := bv.(*ssa.BinOp); isBin && bin.Op == token.ADD && fxIsIntConst(bin.Y, 1) {
+						plus1 = true
+						bv = bin.X
+					}
+					over, overField := "", ""
+					if a, isLen := lenArg(bv); isLen {
+						over, overField = classify(a, benv)
+					}
+					if over == "" {
+						c.Undecided(sc.fn, pos, construct, "the loop bound "+ir.Sym(bound)+" is not the length of a decoded list or of the node's own list")
+						continue
+					}
+					entry := overField == "Key" || overField == "Value"
+					okLoop := false
+					switch field {
+					case "Link":
+						okLoop = (overField == "Link" && !plus1 && op == token.LSS) ||
+							(entry && plus1 && op == token.LSS) || (entry && !plus1 && op == token.LEQ)
+					default:
+						okLoop = entry && !plus1 && op == token.LSS
+					}
+					what := map[string]string{"src": "the decoded ", "dst": "the node's "}[over] + overField + " list"
+					if plus1 {
+						what = "len(" + what + ")+1"
+					}
+					if okLoop {
+						c.OK(pos, construct+" in "+sc.fn.Name(), "ranges over "+what+": every index is transferred", false)
+					} else if field == "Link" {
+						c.Violation(sc.fn, pos, construct, "node.Link[i] is copied in a loop over "+what+": a node with n entries has n+1 links, so the last decoded link is never transferred — a reloaded interior node silently loses its right-most subtree")
+					} else {
+						c.Violation(sc.fn, pos, construct, "node."+field+"[i] is copied in a loop over "+what+", not over the decoded entries")
+					}
+				}
+			}
+		}
+		if nStores == 0 {
+			c.Undecided(sfn, c.P.Pos(sfn.Pos()), "copy loops", "no store into node.Key/Value/Link[i] found in the two-stage JSON decoder or its helpers")
+		}
+	}
+	// (b) binary list decoders
+	if dec == nil {
+		return
+	}
+	seenStore := map[*ssa.Store]bool{}
+	var fns []*ssa.Function
+	for fn := range c.Facts.Reach(dec) {
+		fns = append(fns, fn)
+	}
+	sort.Slice(fns, func(i, j int) bool { return fns[i].Pos() < fns[j].Pos() })
+	for _, fn := range fns {
+		info := sliceDecoder(fn)
+		if info == nil || info.ElemStor == nil || seenStore[info.ElemStor] {
+			continue
+		}
+		seenStore[info.ElemStor] = true
+		es := info.ElemStor
+		lf := es.Parent()
+		ia := es.Addr.(*ssa.IndexAddr)
+		construct := "element loop of " + lf.Name()
+		pos := c.P.InstrPos(es)
+		ms, isMake := fxStripNoConv(ia.X).(*ssa.MakeSlice)
+		bound, op, ok := loopBoundOf(es.Block(), ia.Index)
+		if !isMake || !ok {
+			c.Undecided(lf, pos, construct, "the decoded elements are not stored into a freshly made list inside a recognised counting loop")
+			continue
+		}
+		same := op == token.LSS && (ir.Sym(bound) == ir.Sym(ms.Len) || bound == ms.Len)
+		if a, isLen := lenArg(bound); isLen && op == token.LSS && fxStripNoConv(a) == ssa.Value(ms) {
+			same = true
+		}
+		if same {
+			c.OK(pos, construct, "ranges over exactly the decoded count the list was made with", false)
+		} else {
+			c.Violation(lf, pos, construct, "the element loop runs to "+ir.Sym(bound)+" while the output list was made with "+ir.Sym(ms.Len)+" elements: trailing elements (the last link) are never decoded")
+		}
 	}
 }
